@@ -38,6 +38,12 @@ const (
 	PhSequential        // one task; followed by Reset + replay (Allocated() must not grow)
 	PhReset
 	PhTrim // TrimTo(N)
+	// PhTrimLive: TrimTo(N) with no Reset after it. Slices in buffers that
+	// survive the call stay valid and the phases that follow must not overlap
+	// or overwrite them. (If the call released the very buffer allocations were
+	// going to, the history has left the allocator's contract and is cut short
+	// with a Reset.)
+	PhTrimLive
 )
 
 type APhase struct {
@@ -105,8 +111,10 @@ func genAlloc(seed uint64, deep bool) *AllocPlan {
 			}
 			ph.Progs = [][]AOp{prog}
 			p.Phases = append(p.Phases, ph)
-		case x < 9:
+		case x < 8:
 			p.Phases = append(p.Phases, APhase{Kind: PhReset})
+		case x < 9:
+			p.Phases = append(p.Phases, APhase{Kind: PhTrimLive, N: []int{0, 1, 512, 1024, 2000, 3000, 5000, 100000}[r.IntN(8)]})
 		default:
 			p.Phases = append(p.Phases, APhase{Kind: PhTrim, N: []int{0, 1, 512, 1024, 2000, 5000, 100000, 1 << 30}[r.IntN(8)]})
 		}
@@ -136,6 +144,7 @@ type allocRun struct {
 	sim               *core.Sim
 	dec               *core.Decider
 	live              []handed // since the last Reset
+	trimLive, trimLiveReleased int // TrimTo without Reset: performed / released at least one buffer
 	viol              []Violation
 	nseq              int
 	inSlow            [16]bool
@@ -364,6 +373,41 @@ func runAlloc(plan *AllocPlan, dec *core.Decider) *RunResult {
 			t.a.TrimTo(ph.N)
 			t.a.Reset()
 			t.live = t.live[:0]
+		case PhTrimLive:
+			t.checkLive(fmt.Sprintf("before TrimTo in phase %d", pi))
+			b0, l0, cur := z.VerifAllocChunks(t.a)
+			t.a.TrimTo(ph.N)
+			b1, l1, _ := z.VerifAllocChunks(t.a)
+			if cur >= len(l1) || l1[cur] == 0 {
+				// the buffer in use was released: out of contract, start over
+				t.a.Reset()
+				t.live = t.live[:0]
+				break
+			}
+			released := 0
+			kept := t.live[:0]
+			for _, h := range t.live {
+				ok := false
+				for i := range b1 {
+					if l1[i] > 0 && i < len(b0) && b0[i] == b1[i] && l0[i] == l1[i] && h.lo >= b1[i] && h.hi <= b1[i]+uintptr(l1[i]) {
+						ok = true
+						break
+					}
+				}
+				if ok {
+					kept = append(kept, h)
+				}
+			}
+			for i := range l0 {
+				if l0[i] > 0 && (i >= len(l1) || l1[i] == 0) {
+					released++
+				}
+			}
+			t.live = kept
+			if released > 0 {
+				t.trimLiveReleased++
+			}
+			t.trimLive++
 		}
 		if reason != "" || len(t.viol) > 0 {
 			break
@@ -390,6 +434,6 @@ func runAlloc(plan *AllocPlan, dec *core.Decider) *RunResult {
 	res.Tape = dec.Tape
 	res.Decisions = len(dec.Tape)
 	res.Diverged = dec.Diverged
-	res.Extra = map[string]int{"slow_paths": t.slowPaths, "tasks_together_in_slow_path": t.overshootTogether}
+	res.Extra = map[string]int{"slow_paths": t.slowPaths, "tasks_together_in_slow_path": t.overshootTogether, "trimto_without_reset": t.trimLive, "trimto_without_reset_released_buffers": t.trimLiveReleased}
 	return res
 }
